@@ -2,7 +2,7 @@
    returns a solution for every offered penalisation"); with a number as ridge_coef the call is fista on the defaulted
    arguments and, non_negative with >= 1 iteration, returns a matrix >= epsilon of the shape of UtM. *)
 From Coq Require Import List Arith Bool Reals Lra Lia.
-From TLV Require Import Base.Ops Base.PyList Base.Tensor Base.RSum Model.Nnls Model.NnlsEntry Proofs.NnlsProofs Proofs.NnlsProofsFista Proofs.NnlsProofsStep Proofs.NnlsProofsExamples.
+From TLV Require Import Base.Ops Base.PyList Base.Tensor Base.RSum Model.Nnls Model.NnlsEntry Proofs.NnlsProofs Proofs.NnlsProofsFista Proofs.NnlsProofsStep Proofs.NnlsProofsExamples Proofs.NnlsProofsFistaRate.
 Import ListNotations.
 Open Scope R_scope.
 
@@ -67,3 +67,36 @@ Qed.
 (* non-vacuity: sigma = 3 bounds the Rayleigh quotient of UtU = [[2,1],[1,2]] *)
 Lemma ex_sigma_bound : forall d : nat -> R, quad 2 (Gf ex_UtU) d <= 3 * rsum 2 (fun i => (d i)^2).
 Proof. intros d. unfold quad, Gf, mget, mrow, ex_UtU. cbn. pose proof (pow2_ge_0 (d 0%nat - d 1%nat)). nra. Qed.
+
+(* THE CALL AS A USER WRITES IT: fista with the default step (lr=None), any start (x=None: zeros -- infeasible for the default
+   epsilon = 1e-8, which the rate does not mind), any tol and epsilon, the code's momentum: it returns, and the returned point's
+   objective gap in column j against a KKT point X at the bound epsilon is at most 2 (sigma + 2 ridge) |start - X|^2 / (m+1)^2
+   for the iteration m >= 1 at which it stopped *)
+Theorem fista_call_rate UtM UtU r n (sp : option R) (rd sigma tol eps : R) (x0 : option mat) K' j (X : mat) :
+  wfm r r UtU -> wfm r n UtM -> (j < n)%nat -> (forall i k, Gf UtU i k = Gf UtU k i) -> (forall d, 0 <= quad r (Gf UtU) d) ->
+  0 <= rd -> 0 < sigma + 2 * rd ->
+  (forall d : nat -> R, quad r (Gf UtU) d <= sigma * rsum r (fun i => (d i)^2)) ->
+  match x0 with Some x => wfm r n x | None => True end ->
+  let spv := match sp with Some s => s | None => 0 end in
+  let start := match x0 with Some x => x | None => zeros_like Rops UtM end in
+  (forall i, (i < r)%nat -> eps <= Mget X i j /\ 0 <= qp_grad r (Gf UtU) (bf UtM j) spv rd (colf X j) i /\
+                            (Mget X i j - eps) * qp_grad r (Gf UtU) (bf UtM j) spv rd (colf X j) i = 0) ->
+  exists W m, fista_call Rops UtM UtU n true sp (Some rd) None sigma tol eps x0 (map (beta_of tseq) (seq 0 (S K'))) = Ok W /\
+    (1 <= m <= S K')%nat /\
+    let gap := qp_f r (Gf UtU) (bf UtM j) spv rd (colf W j) - qp_f r (Gf UtU) (bf UtM j) spv rd (colf X j) in
+    0 <= gap /\ (INR m + 1)^2 * gap <= 2 * (sigma + 2 * rd) * rsum r (fun i => (Mget start i j - Mget X i j)^2).
+Proof.
+  intros WG WB Hj Gsym Gpsd Hrd Hp Hs Hx spv start XK.
+  assert (Wst : wfm r n start) by (unfold start; destruct x0 as [x|]; [exact Hx | now apply zeros_like_wfm]).
+  assert (Hlr : 0 < 1 / (sigma + 2 * rd)) by (unfold Rdiv; rewrite Rmult_1_l; now apply Rinv_0_lt_compat).
+  destruct (fista_rate_any_tol UtM UtU r n spv rd (1 / (sigma + 2 * rd)) tol eps j X K' start WG WB Hj Gsym Gpsd Hrd Hlr
+              (default_lr_condition r (Gf UtU) sigma rd Hp Hs) XK Wst) as (m & Hm & G0 & G1).
+  eexists. exists m. split; [reflexivity|]. split; [exact Hm|]. cbv zeta.
+  unfold fista_default_lr, two. cbn [f0 f1 fadd fmul fdiv Rops]. fold spv. fold start.
+  split; [exact G0|].
+  match goal with |- (INR m + 1)^2 * ?g <= _ => set (gp := g) in * end.
+  set (C := rsum r (fun i => (Mget start i j - Mget X i j)^2)) in *.
+  assert (E : (INR m + 1)^2 * gp = (sigma + 2 * rd) * (1 / (sigma + 2 * rd) * (INR m + 1)^2 * gp)) by (field; lra).
+  rewrite E. replace (2 * (sigma + 2 * rd) * C) with ((sigma + 2 * rd) * (2 * C)) by ring.
+  apply Rmult_le_compat_l; [lra | exact G1].
+Qed.
